@@ -1,9 +1,136 @@
 import Tup.DrvUtil
-/-! Driver for group Trk (stub; the group's owner fills it in). -/
+import Tup.Model.Tracker
+/-!
+  Driver for the tracker group (C16).  Stateless: every request carries what it needs, so the
+  harness can use it *interactively* — while the real code is blocked in `get_cursor_position`
+  the responder sends `term W H CFG <all bytes written so far>` and forwards the model
+  terminal's last cursor-position report.
+
+  requests
+    term  W H CFG HEX                 -> cx cy top bot nreplies lastreply(hex)
+    cells W H CFG HEX                 -> placeholder cells  y:x:fg:mark,mark… ; …   (or -)
+    step  W H TRK M REPLIES op…       -> TRK M err nq hex        (TRK = N | x,y ; M = 0|1)
+    parsecpr HEX                      -> col row | err
+  CFG = three bits cubFromW restoreSgr cprClamps.
+-/
 namespace Tup.Drv.Trk
-open Tup
+open Tup Tup.Spec Tup.Trk
+
+def cfgOf (s : String) : Option TermCfg :=
+  match s.toList with
+  | [a, b, c] => some { cubFromW := a = '1', restoreSgr := b = '1', cprClamps := c = '1' }
+  | _ => none
+
+def termOf (w h cfg hex : String) : Option Term := do
+  let w ← w.toNat?
+  let h ← h.toNat?
+  let c ← cfgOf cfg
+  let bs ← ofHex hex
+  pure ((parse bs).foldl Term.feedP (Term.init w h c))
+
+def colorCode : Option Color → String
+  | none => "d"
+  | some (.idx n) => s!"i{n}"
+  | some (.rgb r g b) => s!"{r * 65536 + g * 256 + b}"
+
+def cellsOf (t : Term) : String :=
+  let l := (List.range t.h).flatMap fun y => (List.range t.w).filterMap fun x =>
+    let c := t.cells y x
+    if c.ch = 0x10EEEE then
+      some s!"{y}:{x}:{colorCode c.fg}:{",".intercalate (c.marks.map toString)}"
+    else none
+  if l.isEmpty then "-" else ";".intercalate l
+
+def optInt (s : String) : Option (Option Int) := if s = "N" then some none else s.toInt?.map some
+def optNat (s : String) : Option (Option Nat) := if s = "N" then some none else s.toNat?.map some
+def optPair (s : String) : Option (Option (Nat × Nat)) :=
+  if s = "N" then some none else
+  match s.splitOn "," with
+  | [a, b] => do let x ← a.toNat?; let y ← b.toNat?; pure (some (x, y))
+  | _ => none
+def bool? (s : String) : Option Bool := if s = "1" then some true else if s = "0" then some false else none
+
+def trkOf (t m : String) : Option Trk := do
+  let mm ← bool? m
+  if t = "N" then pure { tracked := none, margins := mm } else
+  match t.splitOn "," with
+  | [a, b] => do let x ← a.toInt?; let y ← b.toInt?; pure { tracked := some (x, y), margins := mm }
+  | _ => none
+
+def trkStr (s : Trk) : String :=
+  (match s.tracked with | none => "N" | some (x, y) => s!"{x},{y}") ++ " " ++ boolStr s.margins
+
+/-- `E` = to_lines raised; `L` + comma separated hex lines otherwise -/
+def linesOf (s : String) : Option (Option (List Bytes)) :=
+  if s = "E" then some none
+  else if s.startsWith "L" then
+    let body := (s.drop 1).toString
+    if body.isEmpty then some (some []) else (body.splitOn ",").mapM ofHex |>.map some
+  else none
+
+def needMarker (c r : Nat) : Bytes := asc s!"<<need {c} {r}>>"
+
+def putArgs (rows cols hasid nomove phc phr lines : String) : Option PutArgs := do
+  let rows ← optInt rows
+  let cols ← optInt cols
+  let hasid ← bool? hasid
+  let nomove ← bool? nomove
+  let phc ← phc.toNat?
+  let phr ← phr.toNat?
+  let ls ← linesOf lines
+  pure { rows := rows, cols := cols, hasImageId := hasid, noMove := nomove,
+         lines := fun c r => if c = phc ∧ r = phr then ls.getD [] else [needMarker c r] }
+
+def kindOf : String → Option CmdKind
+  | "pv" => some (.put true) | "pn" => some (.put false)
+  | "tv" => some (.transmit (some true)) | "tn" => some (.transmit (some false))
+  | "t0" => some (.transmit none) | "o" => some .other
+  | _ => none
+
+def opOf : List String → Option Op
+  | ["reset", b] => do pure (.reset (← bool? b))
+  | ["mv", r, d, l, u] => do pure (.moveCursor (← optInt r) (← optInt d) (← optInt l) (← optInt u))
+  | ["mva", c, r, p] => do pure (.moveCursorAbs (← optNat c) (← optNat r) (← optPair p))
+  | ["margins", t, b] => do pure (.setMargins (← t.toNat?) (← b.toNat?))
+  | ["su", n] => do pure (.scrollUp (← n.toNat?))
+  | ["sd", n] => do pure (.scrollDown (← n.toNat?))
+  | ["write", h] => do pure (.write (← ofHex h))
+  | ["writecmd", h] => do pure (.writecmd (← ofHex h))
+  | ["cl"] => some .clearLine
+  | ["cs"] => some .clearScreen
+  | ["ph", lines, width, pos, save, lf, fmt] => do
+      pure (.printPlaceholder { lines := ← linesOf lines, width := ← width.toNat?, pos := ← optPair pos,
+                                useSave := ← bool? save, useLF := ← bool? lf, formatting := ← bool? fmt })
+  | ["put", rows, cols, hasid, nomove, phc, phr, lines] => do
+      pure (.printPlaceholderForPut (← putArgs rows cols hasid nomove phc phr lines))
+  | ["send", force, kind, apc, rows, cols, hasid, nomove, phc, phr, lines] => do
+      pure (.sendCommand (← bool? force) (← kindOf kind) (← ofHex apc) (← putArgs rows cols hasid nomove phc phr lines))
+  | ["getpos"] => some .getCursorPosition
+  | ["getposT"] => some .getCursorPositionTracked
+  | _ => none
+
+def repliesOf (s : String) : Option (List (Option (Nat × Nat))) :=
+  if s = "-" then some [] else (s.splitOn ",").mapM fun h => (ofHex h).map parseCpr
+
+def errStr : Option Err → String
+  | none => "ok" | some .value => "ValueError" | some .cpr => "cpr"
 
 def handle : List String → String
+  | ["term", w, h, cfg, hex] => match termOf w h cfg hex with
+      | some t => s!"{t.cx} {t.cy} {t.top} {t.bot} {t.replies.length} {hexOut (t.replies.getLast?.getD [])}"
+      | none => "bad"
+  | ["cells", w, h, cfg, hex] => match termOf w h cfg hex with
+      | some t => cellsOf t
+      | none => "bad"
+  | ["parsecpr", hex] => match ofHex hex with
+      | some bs => (match parseCpr bs with | some (c, r) => s!"{c} {r}" | none => "err")
+      | none => "bad"
+  | "step" :: w :: h :: t :: m :: replies :: op => match w.toNat?, h.toNat?, trkOf t m, repliesOf replies, opOf op with
+      | some w, some h, some s, some rs, some op =>
+          let e : Env := { w := w, h := h, ask := fun i _ => (rs[i]?).join }
+          let a := step e s op
+          s!"{trkStr a.s} {errStr a.err} {a.nq} {hexOut (bytesOf a.out)}"
+      | _, _, _, _, _ => "bad"
   | _ => "bad"
 
 end Tup.Drv.Trk
